@@ -71,7 +71,7 @@ def obligations(tier):
         obs.append(dec_ob("decode.contract.N%d" % n, "decode_contract.c", n, defs=["H_COPY_ASSUMED", "NDEBUG"],
                           checks="functional", timeout=600 if q else 1500, what="accept => well-formed (one refill)"))
     # 3. round trip, one obligation per exact length
-    for l in range(0, 9 if q else 11):
+    for l in range(0, 10 if q else 11):
         obs.append(rt_ob("roundtrip.B16.L%d" % l, l, timeout=300 if l <= 8 else 1500))
     for l in ([8] if q else [8, 9]):             # symbol longer than MAX_SYMB_LEN: the flush in _reduce_output_byte
         obs.append(rt_ob("roundtrip.B16.S7.L%d" % l, l, maxs=7, timeout=300 if q else 1500))
